@@ -53,6 +53,14 @@ func httpStatuses(res *vkit.Result, gunType string, tls bool, instances int) {
 		if code == 0 {
 			code = 200
 		}
+		if code >= 300 && code <= 399 {
+			// redirect statuses come with every kind of Location: none, well-formed (which the gun does
+			// not follow by default), and values that are no URL at all — the status received is the
+			// sample's code whatever the header says
+			if loc := []string{"", "/ok", "http://other.example/x", "http://other host/path", "/bad%zzpath", ":8080/path", "http://[::1/unterminated", "//"}[code%8]; loc != "" {
+				w.Header().Set("Location", loc)
+			}
+		}
 		w.WriteHeader(code)
 		if code != 204 && code != 304 && r.Method != "HEAD" {
 			_, _ = w.Write([]byte("body of " + strconv.Itoa(code)))
